@@ -211,6 +211,16 @@ impl Resolver<'_, RouteSet, PrefixSet<Any>> for RpslEvaluator {
         })?;
         let mut set = PrefixSet::<Any>::default();
         for member in members {
+            // `{member}` goes through the filter expression parser: only text that can be an
+            // address prefix with a range operator may get there. Anything else found in the IRR
+            // would be evaluated as a filter expression of its own (`}} OR ANY OR {{` …).
+            if !member
+                .chars()
+                .all(|c| c.is_ascii_hexdigit() || matches!(c, '.' | ':' | '/' | '^' | '+' | '-'))
+            {
+                tracing::warn!("ignoring malformed member '{member}' of {route_set}");
+                continue;
+            }
             let result = format!("{{{member}}}")
                 .parse::<MpFilterExpr>()
                 .map_err(Error::from)
